@@ -15,9 +15,9 @@ TOMB  == "tombstone"        \* the reserved deletion marker of the code
 NoIdx == [rev |-> 0, del |-> FALSE]
 NoVer == [rev |-> 0, val |-> "-"]
 
-Max(S) == CHOOSE x \in S : \A y \in S : y <= x
-Min(S) == CHOOSE x \in S : \A y \in S : x <= y
-MaxOr0(S) == IF S = {} THEN 0 ELSE Max(S)
+MaxS(S) == CHOOSE x \in S : \A y \in S : y <= x
+MinS(S) == CHOOSE x \in S : \A y \in S : x <= y
+MaxOr0(S) == IF S = {} THEN 0 ELSE MaxS(S)
 
 \* newest version with revision <= R (NoVer if none)
 NewestLE(vs, R) ==
@@ -33,7 +33,7 @@ VisibleKeys(ver, KS, R) == {k \in KS : IsLive(NewestLE(ver[k], R))}
 
 \* ascending sequence of the elements of a finite set of integers
 RECURSIVE SortedSeq(_)
-SortedSeq(S) == IF S = {} THEN << >> ELSE LET m == Min(S) IN <<m>> \o SortedSeq(S \ {m})
+SortedSeq(S) == IF S = {} THEN << >> ELSE LET m == MinS(S) IN <<m>> \o SortedSeq(S \ {m})
 
 \* MVCC reference: range read at R over keys lo <= k < hi (key numbers), limit lim (0 = none)
 \* result = [kvs : sequence of [k, rev, val], more : BOOLEAN]
